@@ -917,6 +917,72 @@ class Machine:
         self.compare_objs(S.obj, obj, pred, f'{how} of slot {src} ({cls})',
                           cls)
 
+    def op_cell16(self, op, rng):
+        """Run ``index`` of a batch visits cell ``index mod #cells`` of
+        class x field (every shape parameter, meta, visual) x way of making
+        one field differ {copy(field=other), assignment on a copy, the same
+        value re-expressed in another angular unit}: the two regions differ
+        in exactly that field and compare unequal (equal for the unit
+        re-expression), both ways round, and the original is unchanged."""
+        cells = c16_cells()
+        cls, f, kind, how = cells[op['cell'] % len(cells)]
+        obj, m = self.new_simple(rng, cls)
+        a = self.add_slot('region', obj, m)
+        new_tok = new_dict = None
+        if f in ('meta', 'visual'):
+            items = perturb_items(rng, f, getattr(m, f).d)
+            if items is None or items_to_model(items) == getattr(m, f).d:
+                items = draw_dict_items(rng, f)
+            val = build({'t': f, 'v': items})
+            new_dict = MDict(f, items_to_model(items))
+        elif how == 'unit':
+            import astropy.units as u
+            canonical = mk_value(kind, m.tok[f])
+            units = [x for x in (u.rad, u.arcmin, u.arcsec, u.deg, u.mas)
+                     if x != canonical.unit]
+            val = canonical.to(units[m.tok[f] % len(units)])
+            if not (bool(canonical == val) and bool(val == canonical)):
+                return
+            new_tok = m.tok[f]
+        else:
+            toks = list(range(gen.KIND_SIZES[kind]))
+            start = rng.randrange(len(toks))
+            val = None
+            for t in toks[start:] + toks[:start]:
+                if _ntok(t) == _ntok(m.tok[f]):
+                    continue
+                cand = mk_value(kind, t)
+                try:
+                    obj.copy(**{f: cand})     # e.g. keeps an annulus ordered
+                except ValueError:
+                    continue
+                val, new_tok = cand, t
+                break
+            if val is None:
+                return
+        try:
+            if how == 'assign':
+                c = obj.copy()
+                setattr(c, f, val)
+            else:
+                c = obj.copy(**{f: val})
+        except Exception as exc:
+            self.violation('V2-copy-raises', f'{cls}: {how} of {f!r} raised '
+                           f'{exc!r}', cls=cls, field=f)
+            return
+        mc = mirror(c, m)
+        if new_dict is not None:
+            setattr(mc, f, new_dict)
+        else:
+            mc.tok[f] = new_tok
+        self._copy_checks(f'{how}({f})', a, c, mc, {f})
+        i = self.add_slot('region', c, mc)
+        self.ev(slot=i, src=a, cls=cls, field=f, how=how)
+        self.state('cell16', cls, f, how)
+        self.check_unchanged({id(mc), id(mc.meta), id(mc.visual)},
+                             'V1-independence', f'{how}({f}) on a copy of '
+                             f'slot {a}')
+
     def op_copy(self, op, rng):
         a = self.pick(op['s'], lambda s: s.kind == 'region')
         if a is None:
@@ -2628,6 +2694,20 @@ C17_OPS = [('construct', 6), ('setattr', 8), ('delattr', 1.5),
 
 
 _C17_CELLS = []
+_C16_CELLS = []
+
+
+def c16_cells():
+    if not _C16_CELLS:
+        for cls in sorted(gen.ALL_CLASSES):
+            for f, kind in list(gen.ALL_CLASSES[cls]) + [('meta', 'dict'),
+                                                         ('visual', 'dict')]:
+                hows = ['copy', 'assign']
+                if kind in ('asize', 'angle'):
+                    hows.append('unit')
+                for how in hows:
+                    _C16_CELLS.append((cls, f, kind, how))
+    return _C16_CELLS
 
 
 def c17_cells():
@@ -2656,6 +2736,10 @@ def gen_plan(seed, index, tier='quick', mode='c16'):
         # the batch enumerates class x parameter x entry point (see op_cell)
         plan_ops.insert(cfg.randint(0, 1), {
             'op': 'cell', 's': 0, 'cell': index, 'r': ops.getrandbits(48)})
+    else:
+        # ... and class x field x way of differing (see op_cell16)
+        plan_ops.insert(cfg.randint(0, 1), {
+            'op': 'cell16', 's': 0, 'cell': index, 'r': ops.getrandbits(48)})
     while len(plan_ops) < n:
         k = ops.weighted(enabled)
         plan_ops.append({'op': k, 's': ops.randrange(64),
